@@ -21,7 +21,7 @@ EXPLANATION = (
     'the ValueSpecBase.apply pipeline (frozen, missing, None tests dominate; '
     '_validate on every path after _apply) and boundary operators of the '
     'range/size validators; (e) unknown keys are rejected before any store.')
-FLOORS = {'C03.a': 22, 'C03.b': 10, 'C03.c': 2, 'C03.d': 8, 'C03.e': 2}
+FLOORS = {'C03.a': 22, 'C03.b': 10, 'C03.c': 2, 'C03.d': 8, 'C03.e': 2, 'C03.f': 20}
 FILES = c08.FILES + ['pyglove/core/typing/value_specs.py',
                      'pyglove/core/typing/class_schema.py']
 
@@ -395,8 +395,34 @@ def rule_e(ctx):
          f.loc, '; '.join(problems))
 
 
+def rule_f(ctx):
+  """Typed containers adopted without re-validation rely on is_compatible:
+  List.custom_apply / Dict.custom_apply skip the standard apply when the
+  field's spec `is_compatible` with the container's own spec.  The soundness
+  clauses of compatibility (C04.b polarity/unbounded, C04.e key sets) are
+  therefore necessary conditions of C03 as well."""
+  from sa.rules import c04
+  idx = ctx.index
+  from sa import surface as S2
+  for cls_fq in (S2.LIST, S2.DICT):
+    f = idx.lookup_method(cls_fq, 'custom_apply')
+    g = C.cfg_of(f.node)
+    ts = [k for k in g.nodes if k.kind == 'test' and 'is_compatible(self._value_spec)' in A.unparse(k.ast, 200)]
+    ok = bool(ts) and g.always_raises_from(ts[0], 'false')
+    ctx.ob('C03.f', f.fq, ok,
+           'a pre-typed container is adopted by a field only if the field spec is_compatible with '
+           'the container spec (else ValueError)', f.loc,
+           'the compatibility gate of custom_apply is gone or no longer raises')
+  before = len(ctx.obs)
+  c04.rule_b(ctx)
+  c04.rule_e(ctx)
+  for o in ctx.obs[before:]:
+    o.rule = 'C03.f'
+
+
 def run(ctx):
   ctx.consult(*FILES)
+  rule_f(ctx)
   rule_a(ctx)
   rule_b(ctx)
   rule_c(ctx)
